@@ -51,6 +51,10 @@ type Conn struct {
 	SendErrAt  int   // index of the Send that fails (-1: never)
 	SendErr    error // io.EOF or a status error
 	NewOutput  func() proto.Message
+	Hook       func() // called at the start of every operation
+	Unaware    bool   // the adapter ignores the context (blocks until Release)
+	release    chan struct{}
+	Created    bool
 
 	// records
 	Streams     int
@@ -68,9 +72,27 @@ type Conn struct {
 	RecvCalls   int
 	Events      []string
 	ctxCancelSeen bool
+	sendCalls     int
 }
 
-func NewConn() *Conn { return &Conn{changed: make(chan struct{}), SendErrAt: -1} }
+func NewConn() *Conn { return &Conn{changed: make(chan struct{}), SendErrAt: -1, release: make(chan struct{})} }
+
+func (c *Conn) hook() {
+	if c.Hook != nil {
+		c.Hook()
+	}
+}
+
+// Release unblocks operations of an unaware fake at the end of a case.
+func (c *Conn) Release() {
+	c.mu.Lock()
+	defer c.mu.Unlock()
+	select {
+	case <-c.release:
+	default:
+		close(c.release)
+	}
+}
 
 func (c *Conn) bump() {
 	close(c.changed)
@@ -78,6 +100,7 @@ func (c *Conn) bump() {
 }
 
 func (c *Conn) Stream(ctx context.Context, method string) (grpcadapter.ClientStream, error) {
+	c.hook()
 	c.mu.Lock()
 	c.Streams++
 	c.Method = method
@@ -89,12 +112,22 @@ func (c *Conn) Stream(ctx context.Context, method string) (grpcadapter.ClientStr
 	serr := c.StreamErr
 	c.mu.Unlock()
 	if wait {
+		if c.Unaware {
+			<-c.release
+			return nil, status.Error(codes.Unavailable, "released")
+		}
 		<-ctx.Done()
+		return nil, rpcutil.ContextError(ctx.Err())
+	}
+	if !c.Unaware && ctx.Err() != nil {
 		return nil, rpcutil.ContextError(ctx.Err())
 	}
 	if serr != nil {
 		return nil, serr
 	}
+	c.mu.Lock()
+	c.Created = true
+	c.mu.Unlock()
 	return &Stream{c: c}, nil
 }
 
@@ -112,15 +145,20 @@ type Stream struct{ c *Conn }
 
 func (s *Stream) Send(ctx context.Context, msg proto.Message) error {
 	c := s.c
+	c.hook()
 	c.mu.Lock()
 	defer c.mu.Unlock()
-	if ctx.Err() != nil {
+	if c.Closes > 0 {
+		return status.Error(codes.Canceled, "fake stream closed")
+	}
+	if !c.Unaware && ctx.Err() != nil {
 		return rpcutil.ContextError(ctx.Err())
 	}
 	if c.Closes > 0 {
 		return status.Error(codes.Canceled, "fake stream closed")
 	}
-	idx := len(c.Sent)
+	idx := c.sendCalls
+	c.sendCalls++
 	if c.SendErrAt >= 0 && idx >= c.SendErrAt {
 		return c.SendErr
 	}
@@ -133,12 +171,17 @@ func (s *Stream) Send(ctx context.Context, msg proto.Message) error {
 
 func (s *Stream) Recv(ctx context.Context, msg proto.Message) error {
 	c := s.c
+	c.hook()
 	for {
 		c.mu.Lock()
 		c.RecvCalls++
 		if c.Closes > 0 {
 			c.mu.Unlock()
 			return status.Error(codes.Canceled, "fake stream closed")
+		}
+		if !c.Unaware && ctx.Err() != nil {
+			c.mu.Unlock()
+			return rpcutil.ContextError(ctx.Err())
 		}
 		if c.next < len(c.Script) {
 			it := c.Script[c.next]
@@ -160,6 +203,14 @@ func (s *Stream) Recv(ctx context.Context, msg proto.Message) error {
 		}
 		ch := c.changed
 		c.mu.Unlock()
+		if c.Unaware {
+			select {
+			case <-ch:
+			case <-c.release:
+				return status.Error(codes.Unavailable, "released")
+			}
+			continue
+		}
 		select {
 		case <-ch:
 		case <-ctx.Done():
